@@ -1539,8 +1539,11 @@ func genPush(r *common.Rand, data []byte) Push {
 }
 
 func genName(r *common.Rand) string {
+	if r.Chance(1, 12) { // leaves the working directory: refused by resolveWritePath
+		return common.Pick(r, []string{"../x", "a/../../y", "/c05-outside/x", "sub/../../../z", ".."})
+	}
 	if r.Chance(1, 4) { // a second spelling of one of the plain names (same resolved path)
-		return common.Pick(r, []string{"./a", "x/../a", "sub/../b", "./data.bin", "./x1", "a/.", "sub/./f", "sub/f"})
+		return common.Pick(r, []string{"./a", "x/../a", "sub/../b", "./data.bin", "./x1", "a/.", "sub/./f", "sub/f", "sub//f", "a/", "./sub/../sub/f", "q/r/../../a"})
 	}
 	return common.Pick(r, []string{"a", "b", "data.bin", "x1", "layer.tar", "sub/f"})
 }
